@@ -417,7 +417,7 @@ def valid_case(case):
         prog.build_program(p)
         return p["cls"] in CTXS and all(sorted(o) == list(range(n)) for o in case["orders"]) and all(all(0 <= i < n for i in k) and sorted(set(k)) == k for k in case["subsets"]) and \
             all(_admissible(p["steps"], o) for o in case["orders"])
-    except Exception:
+    except (Exception, HarnessError):
         return False
 
 
